@@ -31,6 +31,22 @@ def run_property(pid: str, tier: str, repo: str, write_evidence: bool = True) ->
     except Exception as e:  # a traceback must never look like a violation
         traceback.print_exc()
         rep.error(f"internal error: {type(e).__name__}: {e}")
+    if tier == "thorough" and write_evidence and not rep.errors:
+        # the thorough tier also tests the checker both ways on this run: every seeded variant of this property
+        # (edited scratch copies of the CURRENT tree, removed afterwards) must be reported with the expected rule,
+        # every behaviour-preserving refactoring must stay silent. A miss means the check is not to be believed: exit 2.
+        try:
+            from .selftest import run_slice
+
+            res = run_slice(pid, repo)
+            bad = [r for r in res if r[2] not in ("KILLED", "SILENT")]
+            rep.analysed["selftest"] = {"cases": len(res), "mutants_reported": sum(1 for r in res if r[2] == "KILLED"), "refactors_silent": sum(1 for r in res if r[2] == "SILENT"),
+                                        "bad": [f"{r[0]}: {r[2]} {r[3]}"[:200] for r in bad]}
+            for r in bad:
+                rep.error(f"self-test case {r[0]} ({r[1]}): {r[2]} {r[3]}"[:300])
+        except Exception as e:
+            traceback.print_exc()
+            rep.error(f"self-test slice failed to run: {type(e).__name__}: {e}")
     return rep.finish(write_evidence)
 
 
